@@ -102,8 +102,66 @@ func (c *Ctx) parseFileModel() (*pfModel, error) {
 			}
 		}
 	}
-	for _, s := range fd.Body.List {
+	// a helper that makes channels and starts a goroutine, returning the channels (inpc, rerr := streamFile(f, done)):
+	// its statements are read as if written here, its parameters standing for the arguments and the variables
+	// it returns for the variables they are assigned to
+	var stmts []ast.Stmt
+	type laterBind struct {
+		lhs  []ast.Expr
+		rets []ast.Expr
+	}
+	var binds []laterBind
+	var pendingParams []func()
+	for _, st := range fd.Body.List {
+		as, isA := st.(*ast.AssignStmt)
+		if isA && len(as.Rhs) == 1 {
+			if call, isC := as.Rhs[0].(*ast.CallExpr); isC {
+				if fn, isF := c.callee(call).(*types.Func); isF && fn.Pkg() != nil && fn.Pkg().Path() == bclPath {
+					if hd := c.funcDecls[fn]; hd != nil && hd.Body != nil && len(hd.Body.List) > 0 {
+						hasGo := false
+						for _, hs := range hd.Body.List {
+							if _, isGo := hs.(*ast.GoStmt); isGo {
+								hasGo = true
+							}
+						}
+						if rs, isRet := hd.Body.List[len(hd.Body.List)-1].(*ast.ReturnStmt); isRet && hasGo && len(rs.Results) == len(as.Lhs) {
+							call, hd := call, hd
+							pendingParams = append(pendingParams, func() {
+								for k, a := range call.Args {
+									po := c.paramObj(hd, k)
+									if po == nil {
+										continue
+									}
+									if ao := c.objOfExpr(a); ao != nil {
+										if n, isCh := m.Chans[ao]; isCh {
+											m.Chans[po] = n
+										}
+										if m.Files[ao] {
+											m.Files[po] = true
+										}
+									}
+								}
+							})
+							stmts = append(stmts, &ast.EmptyStmt{Semicolon: call.Pos(), Implicit: true})
+							stmts = append(stmts, hd.Body.List[:len(hd.Body.List)-1]...)
+							binds = append(binds, laterBind{as.Lhs, rs.Results})
+							continue
+						}
+					}
+				}
+			}
+		}
+		stmts = append(stmts, st)
+	}
+	nextParams := 0
+	for _, s := range stmts {
 		switch s := s.(type) {
+		case *ast.EmptyStmt:
+			// entering a spliced helper: its parameters take the roles of the arguments known so far
+			if s.Implicit && nextParams < len(pendingParams) {
+				pendingParams[nextParams]()
+				nextParams++
+			}
 		case *ast.AssignStmt:
 			for i, r := range s.Rhs {
 				if call, ok := r.(*ast.CallExpr); ok && c.calleeName(call) == "make" {
@@ -179,6 +237,18 @@ func (c *Ctx) parseFileModel() (*pfModel, error) {
 			}
 			if isParser {
 				m.Parser, m.ParserGo = lit, s
+			}
+		}
+	}
+	for _, b := range binds {
+		for i, l := range b.lhs {
+			ro := c.objOfExpr(b.rets[i])
+			lo := c.objOfExpr(l)
+			if ro == nil || lo == nil {
+				continue
+			}
+			if n, isCh := m.Chans[ro]; isCh {
+				m.Chans[lo] = n
 			}
 		}
 	}
@@ -349,6 +419,7 @@ func (c *Ctx) concHooks(m *pfModel) Hooks {
 		return "value"
 	}
 	var h Hooks
+	h.DecideAnywhere = true
 	h.SameEffect = func(a, b *State) bool { return strings.Join(pay(a).events, ";") == strings.Join(pay(b).events, ";") }
 	h.Send = func(in *Interp, st *State, s *ast.SendStmt, v Value) {
 		curSt = st
@@ -636,6 +707,16 @@ func (c *Ctx) readerModel(m *pfModel) *readerModel {
 				return true
 			}
 		}
+		// a step written as a method of the struct that holds the channels
+		if rv := sig.Recv(); rv != nil {
+			if stt, ok := derefType(rv.Type()).Underlying().(*types.Struct); ok {
+				for i := 0; i < stt.NumFields(); i++ {
+					if _, isCh := stt.Field(i).Type().Underlying().(*types.Chan); isCh {
+						return true
+					}
+				}
+			}
+		}
 		return false
 	}
 	h.Loop = func(in *Interp, st *State, loop ast.Stmt, bodyFn func(*State) []*State) ([]*State, bool) {
@@ -892,6 +973,14 @@ func ruleParserProtocol(c *Ctx, r *Report, rule string) {
 				return true
 			}
 		}
+		// a helper that makes channels and starts one of the goroutines
+		if hd := c.funcDecls[fn]; hd != nil && hd.Body != nil {
+			for _, hs := range hd.Body.List {
+				if _, isGo := hs.(*ast.GoStmt); isGo {
+					return true
+				}
+			}
+		}
 		// a step of ParseFile written as a method of the struct that holds its channels (wait, collect)
 		if rv := sig.Recv(); rv != nil {
 			if stt, ok := derefType(rv.Type()).Underlying().(*types.Struct); ok {
@@ -1041,6 +1130,7 @@ func ruleChunkImmutable(c *Ctx, r *Report, rule string) {
 		chanName[o] = n
 	}
 	bodies := []ast.Node{m.Reader.Body}
+	argOf := map[types.Object]ast.Expr{} // helper parameter -> the argument it is given
 	for i := 0; i < len(bodies) && i < 6; i++ {
 		walkCalls(bodies[i], false, func(call *ast.CallExpr) {
 			fn, okF := c.callee(call).(*types.Func)
@@ -1053,6 +1143,9 @@ func ruleChunkImmutable(c *Ctx, r *Report, rule string) {
 			}
 			passes := false
 			for k, a := range call.Args {
+				if po := c.paramObj(hd, k); po != nil {
+					argOf[po] = a
+				}
 				if id, isID := stripParens(a).(*ast.Ident); isID {
 					if n, isCh := chanName[c.objOf(id)]; isCh {
 						if po := c.paramObj(hd, k); po != nil {
@@ -1062,8 +1155,26 @@ func ruleChunkImmutable(c *Ctx, r *Report, rule string) {
 					}
 				}
 			}
+			// a method of the struct that holds the channels (forward(chunk) with the select inside)
+			if rv := fn.Type().(*types.Signature).Recv(); rv != nil {
+				if stt, isS := derefType(rv.Type()).Underlying().(*types.Struct); isS {
+					for i := 0; i < stt.NumFields(); i++ {
+						if _, isCh := stt.Field(i).Type().Underlying().(*types.Chan); isCh {
+							passes = true
+						}
+					}
+				}
+			}
 			if passes {
-				bodies = append(bodies, hd.Body)
+				dup := false
+				for _, b := range bodies {
+					if b == ast.Node(hd.Body) {
+						dup = true
+					}
+				}
+				if !dup {
+					bodies = append(bodies, hd.Body)
+				}
 			}
 		})
 	}
@@ -1086,7 +1197,13 @@ func ruleChunkImmutable(c *Ctx, r *Report, rule string) {
 		if name != "inpc" {
 			return true
 		}
-		call, isC := ss.Value.(*ast.CallExpr)
+		val := ss.Value
+		if id, isID := stripParens(val).(*ast.Ident); isID {
+			if a, has := argOf[c.objOf(id)]; has {
+				val = a // the chunk handed to the helper that sends it
+			}
+		}
+		call, isC := val.(*ast.CallExpr)
 		if !isC {
 			why = "the value sent is not a string(...) conversion"
 			return true
